@@ -18,6 +18,24 @@ CLAIMS = {
             "proto.Marshal/Unmarshal assumed (trusted/proto.contracts); flush-before-publish and immutability of stored objects are not yet under contract", "DESIGN §6 C16"),
     "C20": ("New verified for every argument list: no panic, duplicated/unknown options rejected, numeric options parsed base 0 into the right field, registry changed only on success",
             "strings.SplitN, strconv.ParseInt assumed; UnquoteAll and the columns grammar (combinator parser) are outside the subset; convertSchema and OpenKV are assumed contracts at this point", "DESIGN §6 C20"),
+    "C02": ("which columns a statement assigns (valuesToGo / xColumn no-change protocol), the row merge against the documented per-column rule M, the entry-level gate (update = documented kv join) "
+            "and the write-time plumbing are verified for all inputs; the xColumn no-change defect was found, replayed at SQL level and fixed",
+            "statement triples for Insert/Update/Delete against the summary semantics are not yet under contract; SQLite's vtab protocol assumed", "DESIGN §6 C02"),
+    "C04": ("commit ordering proved on every control path: version object PUT only after a successful flush, parents retired only after the version was published, each parent copied to merged/ before it is "
+            "deleted from current/, the new version never deleted, a failed commit retires nothing, xCommit issues no storage request",
+            "request-level atomic, fail-stop object store; mast flush contract assumed; the lift from these ordering obligations to 'every crash prefix reads as old or new' is argued in DESIGN (uses M-absorb, proved for fully assigned rows only); open-time merge commit and vacuum not yet under contract", "DESIGN §6 C04"),
+    "C05": ("BEGIN/COMMIT/ROLLBACK state contracts at both layers: snapshot is an independent clone of the same abstract tree, rollback restores exactly it, a failed commit keeps it, "
+            "write-time state machine (fixed for the transaction unless set explicitly, cleared at commit/rollback), connection context invariant",
+            "mast.Clone independence assumed; SQLite calls the transaction callbacks in protocol order; statement-level rollback inside a transaction is SQLite's", "DESIGN §6 C05"),
+    "C08": ("Go<->protobuf tagging and SQLite<->Go conversions verified inverse on the five storage classes (bitwise for REAL), codec and merge never alter a stored value object; "
+            "the empty-TEXT defect of the binding is a known finding",
+            "binding accessors/result setters assumed from their source; protobuf transport assumed", "DESIGN §6 C08"),
+    "C13": ("effect contracts with ghost PUT/DELETE counters: Commit, Set, Tombstone, xSync and the transaction callbacks issue no PUT/DELETE on a read-only handle and leave the tree unchanged; "
+            "moveMergedRoots requires a writable handle at every call site",
+            "mutating requests are issued only through the three trusted primitives; Open/OpenKV/Vacuum/DeleteHistoricVersions not yet under contract", "DESIGN §6 C13"),
+    "C15": ("connection attribute invariant (context carries exactly deadline and write_time) preserved by ResetContext/Begin/Commit/Rollback; write time read back from the context; "
+            "retry idempotence at the row-merge level (M idempotent, commutative)",
+            "package context assumed; statement-level idempotence through Insert/Update/Delete not yet under contract", "DESIGN §6 C15"),
     "C17": ("kv value join (LastWriteWins / firstTombstoneWins / Tombstoned) verified against the documented rule for all inputs; "
             "join laws as SMT lemmas; update/Get/Diff glue contracts",
             "TraceHistory and the gob/json root codecs are not decided; mast.Mast Get/Insert assumed (finite-map contract)", "DESIGN §6 C17"),
